@@ -13,7 +13,7 @@ PLAN_ENTRY = {'stages': [
     ]}
 
 CLAIM = {
-    'text': 'TLC enumerates exact rigid motions (rotations by Pythagorean angles about one axis in 2D and about one or two axes in 3D, integer translations up to 1000), checks that each is a proper rotation and - on the specification itself - that the oracle operators used elsewhere (total length, exact minimum distance to a polyline, number of line crossings) are invariant under every exact lattice motion; every (motion, entity, queries) case is run through the library: the entity is moved by the library (SurfacePoint2/3 `&T * sp` and `transformed`, Plane3::transform_by, Curve2/Curve3::transformed_by, Segment2::transform_by, Mesh::transform, PointCloud::transform, point-slice transform_by, Distance2::to_3d / Distance3::to_2d) and TLC judges relations between the observations before and after: points move by T, normals/directions only rotate, scalar projections / planar, signed-plane, point-curve and point-mesh distances / lengths / directed-distance values are unchanged, closedness, count and tolerance are carried over, T^-1 after T restores the vertices, transforming by a composition equals transforming in sequence. Seeded random motions with arbitrary Pythagorean products and translations extend the set. Dirty listings (readings that jitter within the tolerance, repeated points) are moved as well, and the signed 2D profile deviations of metrology::line_profiles are measured in three frames around the corners of random star-shaped polygons (op dev2).',
+    'text': 'TLC enumerates exact rigid motions (rotations by Pythagorean angles about one axis in 2D and about one or two axes in 3D, integer translations up to 1000), checks that each is a proper rotation and - on the specification itself - that the oracle operators used elsewhere (total length, exact minimum distance to a polyline, number of line crossings) are invariant under every exact lattice motion; every (motion, entity, queries) case is run through the library: the entity is moved by the library (SurfacePoint2/3 `&T * sp` and `transformed`, Plane3::transform_by, Curve2/Curve3::transformed_by, Segment2::transform_by, Mesh::transform, PointCloud::transform, point-slice transform_by, Distance2::to_3d / Distance3::to_2d) and TLC judges relations between the observations before and after: points move by T, normals/directions only rotate, scalar projections / planar, signed-plane, point-curve and point-mesh distances / lengths / directed-distance values are unchanged, closedness, count and tolerance are carried over, T^-1 after T restores the vertices, transforming by a composition equals transforming in sequence. Seeded random motions with arbitrary Pythagorean products and translations extend the set. Dirty listings (readings that jitter within the tolerance, repeated points) are moved as well, and the signed 2D profile deviations of metrology::line_profiles are measured in three frames around the corners of random star-shaped polygons (op dev2). Surface-point queries far along the normal (up to 1e5) are judged by relative invariance; vertex and face normals of a mesh are queried before and after the same object is moved.',
     'design_ref': 'DESIGN.md section 6 C03',
     'note': 'Trusted: TLC, nalgebra for T*q, harness projection. Only the rational rotation subgroup is exact; arbitrary angles are not generated. Station directions at interior-vertex arc lengths and closest points with ties are left free.',
     'technique': 'TLA+ spec (L1 semantics) + TLC: bounded model checking, TLC-generated cases replayed into engeom, TLC trace validation of recorded observations',
